@@ -1,5 +1,5 @@
 """Same-named classes as in `ptasks`, in a different module (C07: the module name is part of a type)."""
-from enum import Enum
+from enum import Enum, IntEnum, StrEnum
 from typing import Any
 
 import labtech
@@ -8,6 +8,16 @@ import labtech
 class Color(Enum):
     RED = 1
     BLUE = 2
+
+
+class Verbosity(IntEnum):
+    QUIET = 0
+    LOUD = 1
+
+
+class Dataset(StrEnum):
+    TRAIN = 'train'
+    TEST = 'test'
 
 
 @labtech.task
